@@ -220,6 +220,150 @@ def consequence(ns, res, r, script, origin, scratch, budget_left):
     return budget_left
 
 
+# ---- deep terms -----------------------------------------------------------
+# Sort inference is recursive; on a legal but deeply nested term it runs into
+# the interpreter's recursion limit.  Whatever the code does about that, the
+# answers must stay 'unknown or right' - for the deep term and for every
+# symbol whose sort is derived from it (let bindings in particular).
+DEEP_SORTS = {
+    'Bool': ('Bool', ['true', 'false', '(= p p)'], 'p'),
+    'Int': ('Int', ['7', '(+ i 1)', '(* 2 i)'], 'i'),
+    'Real': ('Real', ['1.5', '(/ r 2.0)'], 'r'),
+    'BV4': (['_', 'BitVec', '4'], ['#b0101', '(bvnot v4)', '#x3'], 'v4'),
+    'BV8': (['_', 'BitVec', '8'], ['#x0f', '(bvneg v8)', '(bvadd v8 v8)'],
+            'v8'),
+    'String': ('String', ['"ab"', '(str.++ s s)'], 's'),
+}
+DEEP_WIDTH = {'BV4': 4, 'BV8': 8}
+
+
+def deep_term(r, sort, n):
+    """(text, description) of a term of ``sort`` nested n levels."""
+    v = DEEP_SORTS[sort][2]
+    shapes = {
+        'Bool': [('(not ', ')'), ('(and p ', ')'), ('(=> ', ' p)'),
+                 ('(ite p ', ' p)')],
+        'Int': [('(- ', ')'), ('(+ ', ' 1)'), ('(* 2 ', ')'),
+                ('(ite p ', ' i)')],
+        'Real': [('(- ', ')'), ('(+ ', ' 1.0)'), ('(ite p r ', ')')],
+        'BV4': [('(bvnot ', ')'), ('(bvadd ', ' v4)'), ('(bvor v4 ', ')')],
+        'BV8': [('(bvnot ', ')'), ('(bvneg ', ')'), ('(bvxor ', ' v8)'),
+                ('(ite p ', ' v8)')],
+        'String': [('(str.++ ', ' s)'), ('(str.++ s ', ')'),
+                   ('(ite p ', ' s)')],
+    }[sort]
+    pre, post = r.choice(shapes)
+    return pre * n + v + post * n, f'{pre.strip()}^{n}'
+
+
+def deep_script(r):
+    """A let with 2-3 bindings of different sorts, one of them deep; returns
+    (text, {name: sort key})."""
+    sorts = r.sample(list(DEEP_SORTS), r.randint(2, 3))
+    n = r.choice([150, 300, 500, 700, 1000, 1500, 3000])
+    deep_at = r.randrange(len(sorts))
+    binds = []
+    truth = {}
+    descr = []
+    for k, s in enumerate(sorts):
+        name = f'b{k}'
+        if k == deep_at:
+            t, d = deep_term(r, s, n)
+            descr.append(f'{name}:{s}:{d}')
+        else:
+            t = r.choice(DEEP_SORTS[s][1])
+            descr.append(f'{name}:{s}')
+        binds.append((name, t))
+        truth[name] = s
+    body = ' '.join(f'(= {nm} {DEEP_SORTS[truth[nm]][2]})' for nm, _ in binds)
+    nested_lets = r.random() < 0.3
+    if nested_lets:
+        term = f'(and {body} p)'
+        for nm, t in reversed(binds):
+            term = f'(let (({nm} {t})) {term})'
+    else:
+        term = '(let (' + ' '.join(f'({nm} {t})' for nm, t in binds) + \
+            f') (and {body} p))'
+    decls = ''.join(
+        f'(declare-const {DEEP_SORTS[s][2]} '
+        f'{refreader.render([DEEP_SORTS[s][0]]).strip()})\n'
+        for s in DEEP_SORTS)
+    text = f'(set-logic ALL)\n{decls}(assert {term})\n(check-sat)\n'
+    return text, truth, ' '.join(descr) + (' nested' if nested_lets else '')
+
+
+def check_deep(ns, res, r, origin):
+    text, truth, descr = deep_script(r)
+    judge_deep(ns, res, text, truth, descr, origin)
+
+
+def judge_deep(ns, res, text, truth, descr, origin):
+    exprs = list(ns.nodeio.parse_smtlib(text))
+    res.count('deep_scripts')
+    try:
+        ns.smtlib.collect_information(exprs)
+    except Exception as e:  # noqa
+        res.count('evaluations')
+        res.violation(
+            f'table-construction-raises:{type(e).__name__}',
+            f'collect_information raised {type(e).__name__} on a well-sorted '
+            f'script with a deeply nested term ({descr})',
+            {'deep': descr, 'origin': origin, 'script': text,
+             'truth': truth})
+        return
+    # the let-bound symbols, and the binding terms themselves (found without
+    # recursion)
+    targets = [(nm, ns.Node(nm), truth[nm]) for nm in truth]
+    stack = list(exprs)
+    while stack:
+        x = stack.pop()
+        if x.is_leaf():
+            continue
+        if len(x.data) == 2 and x.data[0].is_leaf() and \
+                x.data[0].data in truth and not x.data[1].is_leaf():
+            targets.append((f'term of {x.data[0].data}', x.data[1],
+                            truth[x.data[0].data]))
+        stack.extend(x.data)
+    for what, node, skey in targets:
+        res.count('evaluations')
+        res.count('deep_positions')
+        want = DEEP_SORTS[skey][0]
+        try:
+            got = ns.smtlib.get_sort(node)
+            if got is None:
+                res.count('sort_unknown')
+            elif refmodel.to_nested(got) == want:
+                res.count('sort_right')
+            else:
+                res.violation(
+                    'sort:let-bound-symbol' if ' ' not in what
+                    else 'sort:deep-term',
+                    f'get_sort({what}) = {refmodel.to_nested(got)!r} but its '
+                    f'sort is {want!r} ({descr})',
+                    {'deep': descr, 'what': what, 'origin': origin,
+                     'script': text, 'truth': truth})
+        except Exception as e:  # noqa
+            res.count('get_sort_exceptions')
+            res.add_set('exceptions', f'get_sort:deep:{type(e).__name__}')
+        try:
+            w = ns.smtlib.get_bv_width(node)
+            if w == -1:
+                res.count('width_unknown')
+            elif w == DEEP_WIDTH.get(skey):
+                res.count('width_right')
+            else:
+                res.violation(
+                    'width:let-bound-symbol' if ' ' not in what
+                    else 'width:deep-term',
+                    f'get_bv_width({what}) = {w} but its sort is {want!r} '
+                    f'({descr})',
+                    {'deep': descr, 'what': what, 'origin': origin,
+                     'script': text, 'truth': truth})
+        except Exception as e:  # noqa
+            res.count('get_bv_width_exceptions')
+            res.add_set('exceptions', f'get_bv_width:deep:{type(e).__name__}')
+
+
 def shard(args):
     from vlib import dd
     ns = dd.load()
@@ -242,6 +386,10 @@ def shard(args):
         finally:
             import shutil
             shutil.rmtree(scratch, ignore_errors=True)
+        return res.to_dict()
+    if args.get('kind') == 'deep':
+        for i in range(args['n']):
+            check_deep(ns, res, r, f'{args["shard"]}:{i}')
         return res.to_dict()
     for i in range(args['n']):
         # scripts are analysed one after the other in this process: with
@@ -266,6 +414,8 @@ def run(ctx):
     shards += [{'shard': 100 + i, 'kind': 'consequence',
                 'budget': 60 if ctx.tier == 'quick' else 1500}
                for i in range(common.NCPU)]
+    shards += [{'shard': 200 + i, 'kind': 'deep',
+                'n': 40 if ctx.tier == 'quick' else 2000} for i in range(4)]
     results = common.run_shards('checks.c16', shards, timeout=3000)
     common.merge_shards(ctx, results)
     # real-run part: the sorts answered during a real run must not depend
@@ -281,7 +431,10 @@ def run(ctx):
         'with >= 3 term positions; consequence clause: results of '
         'Constants / ReplaceByVariable / ReplaceByChild / '
         'IntroduceFreshVariable proposals are sort-checked by cvc5; scripts '
-        'are analysed in sequence in one process, two thirds with one name '
+        'are analysed in sequence in one process (plus lets with 2-3 '
+        'bindings of different sorts, one of them nested 150-3000 levels '
+        'deep, so that the recursive inference meets the recursion limit), '
+        'two thirds with one name '
         'space for all roles (a constructor name of one script is a '
         'function or constant in the next); real-run part: at every point '
         'where the main thread starts generating simplifications the sort '
@@ -298,6 +451,8 @@ def run(ctx):
     if ctx.counters.get('sort_right', 0) == 0 or ctx.counters.get(
             'width_right', 0) == 0:
         ctx.inconclusive_because('no position with an inferred sort/width')
+    if ctx.counters.get('deep_positions', 0) == 0:
+        ctx.inconclusive_because('no deeply nested term was analysed')
 
 
 def replay(data):
@@ -305,6 +460,14 @@ def replay(data):
     ns = dd.load()
     for c in data['cases']:
         w = c['witness']
+        if 'truth' in w:
+            res = common.ShardResult()
+            judge_deep(ns, res, w['script'], w['truth'], w['deep'], 'replay')
+            for v in res.violations:
+                print(v['key'], v['what'][:300])
+            if not res.violations:
+                return 0
+            continue
         exprs = list(ns.nodeio.parse_smtlib(w['script']))
         ns.smtlib.collect_information(exprs)
         t = refmodel.build(ns.Node, w['term'])
